@@ -13,8 +13,10 @@
    satisfiable below in Q(i)); all sizes n, m >= 1.  C06_resample_axis_lines lifts the one-axis
    statements to every line of any axis of an N-D array. *)
 From QV.lib Require Import Prelude FinSum DFT DFT_Inst.
-From QV.model Require Import C06_Model.
+From QV.lib Require Import C06_Eisenstein.
+From QV.model Require Import C06_Model C06_ModelND.
 From QV.proof Require Import C06_Proofs C06_Proofs_Resample C06_Proofs_ND.
+From QV.proof Require Import C06_Proofs_Index C06_Proofs_BinND C06_Proofs_Sep C06_Proofs_SepCor.
 From Coq Require Import QArith Qcanon PrimFloat.
 Local Close Scope Q_scope.
 Local Close Scope Qc_scope.
@@ -503,3 +505,173 @@ Example C06_nonvacuous_resample_meta :
   show_qc (resample_origin 4 6 (Q2Qc 1) (Q2Qc (3 # 2))) = (3, 4)%Z /\
   out_len_of_factor 5 (15 / 10)%float = Some 8%Z /\ out_len_of_factor 5 (1 / 2)%float = Some 2%Z.
 Proof. repeat split; vm_compute; reflexivity. Qed.
+
+(* ================================================================== round 3: N-D closed forms *)
+
+(* multi-index addressing (model/C06_ModelND.v): get d t J = the entry of t at the multi-index J =
+   nth (ravel (shape t) J) (data t) d with ravel the row-major flat index; in_bounds sh J: J has one
+   coordinate per axis, each below the axis length.
+   BIN over several axes AT ONCE, one closed formula: output pixel J of Dataset.bin over the
+   distinct axes a_1..a_k with factors f_1..f_k is the sum over all offset tuples (u_1..u_k),
+   u_i < f_i, of the input pixel at the multi-index block_index afs J us ... *)
+Theorem C06_bin_multi_axis_block_sum :
+  forall (afs : list (nat * nat)) (t : tensor Qc) (J : list nat),
+    wf t -> axes_ok afs (length (shape t)) ->
+    in_bounds (shape (bin_sum afs t)) J ->
+    get 0%Qc (bin_sum afs t) J = osum (map snd afs) (fun us => get 0%Qc t (block_index afs J us)).
+Proof. exact bin_sum_closed. Qed.
+Print Assumptions C06_bin_multi_axis_block_sum.
+
+(* ... whose coordinate on the p-th listed axis a_p is J[a_p] * f_p + u_p, whose other coordinates
+   are those of J, and which always lies inside the input array *)
+Theorem C06_bin_block_index_coordinates :
+  forall (afs : list (nat * nat)) (J us : list nat) (nd : nat),
+    axes_ok afs nd -> length J = nd -> length us = length afs ->
+    (forall p, p < length afs ->
+       nth (fst (nth p afs (0, 0))) (block_index afs J us) 0
+       = nth (fst (nth p afs (0, 0))) J 0 * snd (nth p afs (0, 0)) + nth p us 0) /\
+    (forall b, ~ In b (map fst afs) -> nth b (block_index afs J us) 0 = nth b J 0).
+Proof.
+  intros afs J us nd Hok HJ Hus. split.
+  - intros p Hp. apply (block_index_listed afs J us nd p); assumption.
+  - intros b Hb. apply (block_index_other afs J us nd b); [destruct Hok as [_ H]; exact H | exact HJ | exact Hb].
+Qed.
+Print Assumptions C06_bin_block_index_coordinates.
+
+Theorem C06_bin_block_index_in_bounds :
+  forall (afs : list (nat * nat)) (sh J us : list nat),
+    axes_ok afs (length sh) -> length J = length sh ->
+    (forall b, b < length sh -> ~ In b (map fst afs) -> nth b J 0 < nth b sh 0) ->
+    (forall af, In af afs -> nth (fst af) J 0 < nth (fst af) sh 0 / snd af) ->
+    Forall2 lt us (map snd afs) ->
+    in_bounds sh (block_index afs J us).
+Proof. exact block_index_in_bounds. Qed.
+Print Assumptions C06_bin_block_index_in_bounds.
+
+(* reducer = "mean": the same closed block sum divided by the block volume f_1 * .. * f_k *)
+Theorem C06_bin_multi_axis_block_mean :
+  forall (afs : list (nat * nat)) (t : tensor Qc) (J : list nat),
+    wf t -> axes_ok afs (length (shape t)) ->
+    in_bounds (shape (bin_sum afs t)) J ->
+    get 0%Qc (bin_mean afs t) J
+    = (osum (map snd afs) (fun us => get 0%Qc t (block_index afs J us)) / qc_of_nat (block_volume afs))%Qc.
+Proof. exact bin_mean_closed. Qed.
+Print Assumptions C06_bin_multi_axis_block_mean.
+
+(* binning a set of axes in ONE call = binning them one call after the other (any dimension, any
+   distinct axes in any order, dividing or non-dividing factors); the calibration of the one call
+   is by definition the composition of the one-axis calibrations (bin_meta is a fold) *)
+Theorem C06_bin_sequential_calls :
+  forall (afs : list (nat * nat)) (t : tensor Qc),
+    wf t -> axes_ok afs (length (shape t)) ->
+    bin_sum afs t = fold_left (fun acc af => bin_sum [af] acc) afs t.
+Proof. exact bin_sum_sequential. Qed.
+Print Assumptions C06_bin_sequential_calls.
+
+(* ================================================================== round 3: N-D separability *)
+
+(* Dataset.fourier_resample computes fftn / fftshift / centred crop-pad / ifftshift / ifftn over
+   ALL listed axes at once and multiplies once by N_out / N_in (pipeline_nd).  That is EQUAL to the
+   one-axis pipeline `resample` applied axis after axis (resample_nd, the executable model and the
+   subject of the one-axis theorems) — any commutative ring, any dimension, any list of distinct
+   axes, any target lengths >= 1; no root-of-unity hypothesis is needed *)
+Theorem C06_resample_nd_separable :
+  forall (R : Type) (rO rI : R) (radd rmul rsub : R -> R -> R) (ropp : R -> R),
+    ring_theory rO rI radd rmul rsub ropp eq ->
+    forall (tw : nat -> Z -> R) (inv : nat -> R) (nd : nat) (ams : list (nat * nat)) (t : tensor R),
+      axes_ok ams nd -> axes_pos ams -> good R nd t ->
+      pipeline_nd rO rI radd rmul tw inv ams t = resample_nd rO rI radd rmul tw inv ams t.
+Proof. exact pipeline_nd_separable. Qed.
+Print Assumptions C06_resample_nd_separable.
+
+(* N-D, all axes at once: an unchanged shape gives the identity *)
+Theorem C06_resample_nd_id :
+  forall (R : Type) (rO rI : R) (radd rmul rsub : R -> R -> R) (ropp : R -> R),
+    ring_theory rO rI radd rmul rsub ropp eq ->
+    forall conj : R -> R, conj_ok radd rmul conj ->
+    forall (tw : nat -> Z -> R) (inv : nat -> R) (nd : nat) (ams : list (nat * nat)) (t : tensor R),
+      axes_ok ams nd -> good R nd t ->
+      (forall am, In am ams -> snd am = len_of (fst am) (shape t)) ->
+      (forall am, In am ams -> root_ok rO rI radd rmul conj (snd am) (tw (snd am)) (inv (snd am))) ->
+      pipeline_nd rO rI radd rmul tw inv ams t = t.
+Proof. exact pipeline_nd_id. Qed.
+Print Assumptions C06_resample_nd_id.
+
+(* ================================================================== round 3: non-vacuity *)
+
+(* 5 x 3 binned by (2, 2) in one call: pixel (1, 0) = 7 + 8 + 10 + 11 through the closed formula;
+   the four block multi-indices are (2,0) (2,1) (3,0) (3,1); one call = two calls *)
+Example C06_nonvacuous_bin_closed :
+  in_bounds (shape (bin_sum [(0, 2); (1, 2)] ex_t)) [1; 0] /\
+  map (block_index [(0, 2); (1, 2)] [1; 0]) [[0; 0]; [0; 1]; [1; 0]; [1; 1]] = [[2; 0]; [2; 1]; [3; 0]; [3; 1]] /\
+  show_qc (osum [2; 2] (fun us => get 0%Qc ex_t (block_index [(0, 2); (1, 2)] [1; 0] us))) = (36, 1)%Z /\
+  show_qc (get 0%Qc (bin_sum [(0, 2); (1, 2)] ex_t) [1; 0]) = (36, 1)%Z /\
+  show_t (bin_sum [(1, 2)] (bin_sum [(0, 2)] ex_t)) = show_t (bin_sum [(0, 2); (1, 2)] ex_t) /\
+  map show_qc (bin_closed [(1, 2); (0, 2)] ex_t [2; 1]) = [(12, 1); (36, 1)]%Z.
+Proof.
+  split; [split; [reflexivity | intros [|[|b]] Hb; cbn in *; lia]|].
+  repeat split; vm_compute; reflexivity.
+Qed.
+
+(* Eisenstein rationals Q(omega): the ring / conjugation / root-of-unity hypotheses hold TOGETHER
+   for the sizes 1, 2, 3 and 6, so the odd <-> even statements are exercised: [1; 2; 4] (n = 3,
+   odd, no Nyquist bin) up-sampled to 6 and back, complex and `.real` pipelines; mean 7/3 kept;
+   3 -> 2 (odd -> even, down) and 2 -> 3 (even -> odd, up) keep the mean *)
+Definition ex_e (l : list Z) : nat -> E := fun i => (Q2Qc (nth i l 0%Z # 1), 0%Qc).
+Definition ex_eshow (N : nat) (f : nat -> E) := map (fun i => (show_qc (fst (f i)), show_qc (snd (f i)))) (seq 0 N).
+Definition ex_emean (N : nat) (ninv : E) (f : nat -> E) :=
+  let m := emul ninv (FinSum.sumn e0 eadd N f) in (show_qc (fst m), show_qc (snd m)).
+
+Example C06_nonvacuous_resample_odd :
+  ring_theory e0 e1 eadd emul esub eopp eq /\ conj_ok eadd emul econj /\
+  root_ok e0 e1 eadd emul econj 1 v1 e1 /\ root_ok e0 e1 eadd emul econj 2 v2 ehalf /\
+  root_ok e0 e1 eadd emul econj 3 v3 ethird /\ root_ok e0 e1 eadd emul econj 6 v6 esixth /\
+  emul ehalf (eadd e1 e1) = e1 /\
+  (forall i, i < 3 -> econj (ex_e [1; 2; 4]%Z i) = ex_e [1; 2; 4]%Z i) /\
+  (Nat.odd 3 = true \/ dft e0 eadd emul 3 v3 (ex_e [1; 2; 4]%Z) (3 / 2) = e0) /\ 3 <= 6 /\
+  (* complex pipeline 3 -> 6 -> 3 *)
+  ex_eshow 3 (resample e0 e1 eadd emul 6 3 v6 v3 esixth ethird
+                (resample e0 e1 eadd emul 3 6 v3 v6 ethird esixth (ex_e [1; 2; 4]%Z)))
+  = [((1, 1), (0, 1)); ((2, 1), (0, 1)); ((4, 1), (0, 1))]%Z /\
+  (* `.real` pipeline 3 -> 6 -> 3, and the up-sampled signal is real and keeps the mean *)
+  ex_eshow 3 (resample_re e0 e1 eadd emul econj ehalf 6 3 v6 v3 esixth ethird
+                (resample_re e0 e1 eadd emul econj ehalf 3 6 v3 v6 ethird esixth (ex_e [1; 2; 4]%Z)))
+  = [((1, 1), (0, 1)); ((2, 1), (0, 1)); ((4, 1), (0, 1))]%Z /\
+  map snd (ex_eshow 6 (resample e0 e1 eadd emul 3 6 v3 v6 ethird esixth (ex_e [1; 2; 4]%Z)))
+  = [(0, 1); (0, 1); (0, 1); (0, 1); (0, 1); (0, 1)]%Z /\
+  ex_emean 6 esixth (resample e0 e1 eadd emul 3 6 v3 v6 ethird esixth (ex_e [1; 2; 4]%Z)) = ((7, 3), (0, 1))%Z /\
+  (* odd -> even down-sampling and even -> odd up-sampling keep the mean *)
+  ex_emean 2 ehalf (resample e0 e1 eadd emul 3 2 v3 v2 ethird ehalf (ex_e [1; 2; 4]%Z)) = ((7, 3), (0, 1))%Z /\
+  ex_emean 3 ethird (resample e0 e1 eadd emul 2 3 v2 v3 ehalf ethird (ex_e [1; 4]%Z)) = ((5, 2), (0, 1))%Z /\
+  (* even n = 2 with an empty Nyquist bin, up to the odd size 3 and back *)
+  (Nat.odd 2 = true \/ dft e0 eadd emul 2 v2 (ex_e [5; 5]%Z) (2 / 2) = e0) /\
+  ex_eshow 2 (resample_re e0 e1 eadd emul econj ehalf 3 2 v3 v2 ethird ehalf
+                (resample_re e0 e1 eadd emul econj ehalf 2 3 v2 v3 ehalf ethird (ex_e [5; 5]%Z)))
+  = [((5, 1), (0, 1)); ((5, 1), (0, 1))]%Z.
+Proof.
+  split; [exact E_ring|]. split; [exact E_conj_ok|]. split; [exact E_root_ok_1|]. split; [exact E_root_ok_2|].
+  split; [exact E_root_ok_3|]. split; [exact E_root_ok_6|]. split; [exact ehalf_ok|].
+  split; [intros i Hi; unfold ex_e; apply econj_real|].
+  split; [left; reflexivity|]. split; [lia|].
+  repeat split; try (vm_compute; reflexivity). right. vm_compute. reflexivity.
+Qed.
+
+(* separability, on a concrete 3 x 2 array over Q(omega) resampled to 6 x 3 (odd -> even on axis
+   0, even -> odd on axis 1): the hypotheses hold and both sides compute to the same tensor *)
+Definition etw (n : nat) : Z -> E := match n with 1 => v1 | 2 => v2 | 3 => v3 | _ => v6 end.
+Definition einv (n : nat) : E := match n with 1 => e1 | 2 => ehalf | 3 => ethird | _ => esixth end.
+Definition ex_te : tensor E := mkT [3; 2] (map (fun z => (Q2Qc (z # 1), 0%Qc)) [1; 2; 3; 5; 8; 13]%Z).
+Definition eshow_t (t : tensor E) := (zl (shape t), map (fun z => (show_qc (fst z), show_qc (snd z))) (data t)).
+
+Example C06_nonvacuous_separable :
+  axes_ok [(0, 6); (1, 3)] 2 /\ axes_pos [(0, 6); (1, 3)] /\ good E 2 ex_te /\
+  eshow_t (pipeline_nd e0 e1 eadd emul etw einv [(0, 6); (1, 3)] ex_te)
+  = eshow_t (resample_nd e0 e1 eadd emul etw einv [(0, 6); (1, 3)] ex_te) /\
+  fst (eshow_t (pipeline_nd e0 e1 eadd emul etw einv [(0, 6); (1, 3)] ex_te)) = [6; 3]%Z /\
+  eshow_t (pipeline_nd e0 e1 eadd emul etw einv [(1, 2); (0, 3)] ex_te) = eshow_t ex_te.
+Proof.
+  split; [split; [repeat constructor; cbn; intuition lia | intros af [<-|[<-|[]]]; cbn; lia]|].
+  split; [intros am [<-|[<-|[]]]; cbn; lia|].
+  split; [split; [reflexivity | split; [reflexivity | intros [|[|b]] Hb; cbn; lia]]|].
+  repeat split; vm_compute; reflexivity.
+Qed.
